@@ -92,11 +92,16 @@ func NewHTTPResponse(statusCode int, header http.Header, encoding string, data [
 	case "":
 		resp.RawBody = data
 	default:
-		// 取默认的compress来解压
-		compressSrv := compress.Get("")
-		data, err := compressSrv.Decompress(encoding, data)
-		if err != nil {
-			return nil, err
+		// 响应无数据(HEAD请求的响应、204、304或空数据)时无需解压，
+		// 否则部分解压(如snappy)对空数据返回出错，导致上述响应被转换为500
+		if len(data) != 0 {
+			// 取默认的compress来解压
+			compressSrv := compress.Get("")
+			rawData, err := compressSrv.Decompress(encoding, data)
+			if err != nil {
+				return nil, err
+			}
+			data = rawData
 		}
 		header.Del(elton.HeaderContentEncoding)
 		resp.RawBody = data
